@@ -44,6 +44,16 @@ def run(ctx):
     e2, s2 = lc.judge(ctx, res_adv, trace_adv)
     events += e2
     states += s2
+    # user rules whose filters look at the package of the analysed file, by one long-lived ruleguard checker over several packages
+    args_rg = ["-corpus", "dir:" + gdir, "-mode", "cli,order", "-oblig", "c03", "-others", "2", "-checkers", "ruleguard,importShadow,dupImport",
+               "-rgrules", os.path.join(vlib.VERIF, "corpus", "rules", "advpkg.go")]
+    res_rg, trace_rg = lc.run_harness(ctx, "c03_rg", args_rg, cwd=vlib.REPO)
+    if res_rg["warnings"] == 0:
+        raise vlib.Infra("the package-dependent user rules produced no diagnostics on the adversarial corpus")
+    e3, s3 = lc.judge(ctx, res_rg, trace_rg)
+    events += e3
+    states += s3
+    res_adv["nonconf"] = res_adv["nonconf"] + [dict(n, via="user rules") for n in res_rg["nonconf"]]
     for n in res_adv["nonconf"]:
         if n["kind"] in C03_KINDS:
             ctx.fail("%s %s" % (n["kind"], n["checker"]),
